@@ -60,7 +60,7 @@ def le1(prog, env, R, prefix, tag):
             "the key vector is indexed without being sorted first: HashMap iteration order differs between nodes, so nodes "
             "would disagree on the leader")
     # index = (round [+ c]) % n
-    idx = tail["i"]
+    idx = ctx.origin_node(tail["i"])     # the index may first be bound to an immutable local
     oki = False
     howi = ir.pp(idx, maxlen=100)
     if idx["k"] == "bin" and idx["op"] == "%":
